@@ -375,3 +375,37 @@ func EnvInt(name string, def int) int {
 	}
 	return def
 }
+
+// Fuzz runs the property under native coverage-guided fuzzing (go test -fuzz).
+// decode is the data-provider layer: it maps raw fuzz bytes to a case (false:
+// skip). The oracle is p.Run, so a crasher is an ordinary case: it is written to
+// $VERIF_OUT/fail.json (the last one written is the minimised one) and becomes a
+// replay file. Worker processes count executions in $VERIF_OUT/fuzz-<pid>.count.
+func (p Prop[C]) Fuzz(f *testing.F, seeds [][]byte, decode func([]byte) (C, bool)) {
+	for _, s := range seeds {
+		f.Add(s)
+	}
+	rec := NewRecorder(p.ID, p.Rule)
+	var n, nt int
+	var last time.Time
+	countFile := filepath.Join(rec.OutDir(), fmt.Sprintf("fuzz-%d.count", os.Getpid()))
+	f.Fuzz(func(t *testing.T, b []byte) {
+		c, ok := decode(b)
+		if !ok {
+			return
+		}
+		res := p.Run(c)
+		n++
+		if res.NonTrivial {
+			nt++
+		}
+		if time.Since(last) > time.Second {
+			last = time.Now()
+			os.WriteFile(countFile, []byte(fmt.Sprintf("%d %d", n, nt)), 0o644)
+		}
+		if fresh := Judge(rec, p.ID, res); len(fresh) > 0 {
+			rec.WriteFail(c, fresh)
+			t.Fatalf("VIOLATION %s: %s [%s]", p.ID, fresh[0].Msg, fresh[0].FP)
+		}
+	})
+}
